@@ -320,7 +320,7 @@ def run_check(prop, tier, base_seed, budget_s=None, max_runs=None):
         print("HARNESS-ERROR", harness_fail)
         return 2
     if status == 0:
-        print(f"OK property={prop} tier={tier} runs={agg['runs']} evaluations={agg['stats'].get('evaluations', 0)} "
+        print(f"OK property={prop} tier={tier} runs={agg['runs']} evaluations={sum(agg['stats'].get(k, 0) for k in profile.eval_stats)} "
               f"distinct_nontrivial={len(agg['dn'])} wall={wall:.1f}s")
     return status
 
@@ -336,7 +336,8 @@ def write_evidence(profile, tier, base_seed, agg, wall_total, wall_search, nviol
         "wall_s": round(wall_total, 2),
         "violations": nviol,
         "coverage": {
-            "evaluations": max(1, int(stats.get("evaluations", 0)) or agg["runs"]),
+            "evaluations": max(1, sum(int(stats.get(k, 0)) for k in profile.eval_stats)),
+            "evaluations_counted": list(profile.eval_stats),
             "distinct_nontrivial": len(agg["dn"]),
             "rule": profile.dn_rule,
             "samples": agg["samples"][:3],
